@@ -106,7 +106,7 @@ func TestC17(t *testing.T) {
 		}
 		// 1b. alignment: ASCII runs of every length 0..136, then one of 16 multi-byte / invalid
 		// sequences, then an ASCII tail of length 0..12 (8-bytes-at-a-time scanners)
-		if e.enumStage("alignment", "ASCII run of length 0..136 and round 256/512/1024/4096 + one of 16 valid/invalid sequences + ASCII tail of length 0..12 (chunked and word-at-a-time scanners); runs of 2^16, 2^20 (thorough 2^24) +-1 with 6 sequences x 3 tails", true) {
+		if e.enumStage("alignment", "ASCII run of length 0..136 and round 256/512/1024/4096 + one of 16 valid/invalid sequences + ASCII tail of length 0..12 (chunked and word-at-a-time scanners); runs of 2^16, 2^20 (thorough 2^24) +-1 with all 16 sequences x 3 tails", true) {
 			seqs := []string{"\xff", "\x80", "\xc3", "\xc3\xa9", "\xe2\x82", "\xe2\x82\xac", "\xf0\x9f\x98", "\xf0\x9f\x98\x80", "\xed\xa0\x80", "\xc0\xaf", "\xf4\x90\x80\x80", "\xc3\xa9\xff", "\xff\xc3\xa9", "\xef\xbf\xbd", "\xef\xbf", "\xfe\xfe\xff\xff"}
 			buf := make([]byte, 0, 4200)
 			idx := 0
@@ -130,9 +130,7 @@ func TestC17(t *testing.T) {
 					if !e.cfg.Mine(idx) {
 						continue
 					}
-					if li >= nSmall && si%3 != 0 {
-						continue // large runs: 6 of the sequences, 3 tail lengths
-					}
+					_ = si // large runs: every sequence, 3 tail lengths
 					for T := 0; T <= 12; T++ {
 						if li >= nSmall && T != 0 && T != 1 && T != 4 {
 							continue
